@@ -219,6 +219,9 @@ LONG_FORMS = {86400.0: '1D', 90000.0: '25h', 5400.0: '90min'}
 def _ival(spec):
     """the interval of a time-based node, as a number or (ival_str) in the string form the API also accepts"""
     v = spec['interval']
+    if spec.get('ival_np'):
+        import numpy as np
+        return np.dtype(spec['ival_np']).type(v)           # a numpy scalar, e.g. the result of some array computation
     if spec.get('ival_str'):
         if v in LONG_FORMS:
             return LONG_FORMS[v]
@@ -300,7 +303,7 @@ def run_async(case, max_steps=400):
     svcs = [d for s in prog['nodes'] for d in (s.get('svc') or [0])]
     gaps = [it[0] for p in case['producers'] for it in p]
     step = 2 * max(intervals + [0]) + max(svcs + [0]) + max(gaps + [0]) + 1.0
-    with virtual_env() as env:
+    with virtual_env(case.get('t0', 0.0)) as env:
         with R.recording(env.now) as log:
             ar.log = log
             ctx = Ctx(env, log)
